@@ -20,7 +20,9 @@ Record cmdrec := mkC {
   c_kind : cmdkind; c_name : str;
   c_replaced : option nat;        (* deploy: balancer taken out of the slot *)
   c_install_idx : option nat;     (* deploy: index of its KInstall / rollout: of its KSlot *)
-  c_gate_idx : option nat         (* pause/stop: index of its KGateSet *)
+  c_gate_idx : option nat;        (* pause/stop: index of its KGateSet *)
+  c_issue : nat;                  (* index of its KIssue *)
+  c_overlapped : bool             (* another command on the same service was in progress at some time of this one *)
 }.
 
 (** a target that must stay quiet: since which command, and the index before
@@ -87,7 +89,7 @@ Definition inflight_of (m : mon) (t : nat) : list nat :=
   match nget (m_inflight m) t with Some l => l | None => [] end.
 
 Definition cmd_get (m : mon) (c : nat) : cmdrec :=
-  match nget (m_cmds m) c with Some x => x | None => mkC CkDeploy [] None None None end.
+  match nget (m_cmds m) c with Some x => x | None => mkC CkDeploy [] None None None 0 false end.
 
 Definition installed_for (m : mon) (name : str) : option nat :=
   match find (fun p => str_eqb (snd p) name) (m_installed m) with Some (s, _) => Some s | None => None end.
@@ -101,7 +103,15 @@ Definition mon_step (m : mon) (i : nat) (e : event) : mon :=
   | KLbNew lb ts => mkMon (nset (m_lb_targets m) lb ts) (fold_left (fun acc t => nset acc t lb) ts (m_target_lb m))
       (m_slots m) (m_names m) (m_installed m) (m_cmds m)
       (m_inflight m) (m_routed m) (m_gated m) (m_drain_dl m) (m_snap m) (m_dl_hit m) (m_cut m) (m_quiet m) (m_gate m) (m_open m) (m_cmd_dt m) (m_claim_idx m) (m_begin_idx m) (m_fail m)
-  | KIssue c k name => set_cmds m (nset (m_cmds m) c (mkC k name None None None))
+  | KIssue c k name =>
+    (* commands on the same service still in progress: they and this one overlap - the property speaks of ONE command
+       interleaved with requests, so neither is judged *)
+    let busy := filter (fun p => nmem (fst p) (map fst (m_cmd_dt m)) && str_eqb (c_name (snd p)) name) (m_cmds m) in
+    let marked := map (fun p => if nmem (fst p) (map fst busy)
+                                then (fst p, mkC (c_kind (snd p)) (c_name (snd p)) (c_replaced (snd p)) (c_install_idx (snd p))
+                                                 (c_gate_idx (snd p)) (c_issue (snd p)) true)
+                                else p) (m_cmds m) in
+    set_cmds m (nset marked c (mkC k name None None None i (match busy with [] => false | _ => true end)))
   | KParams c _ dt _ => set_aux m (nset (m_cmd_dt m) c dt) (m_claim_idx m) (m_begin_idx m)
   | KSvcCopy old new =>
     set_slots m (nset (m_slots m) new (match nget (m_slots m) old with Some x => x | None => (None, None) end))
@@ -111,7 +121,8 @@ Definition mon_step (m : mon) (i : nat) (e : event) : mon :=
     match e_by e with
     | ACmd c => let r := cmd_get m c in
                 set_cmds m1 (nset (m_cmds m1) c (mkC (c_kind r) (c_name r) replaced
-                                                     (if rollout then Some i else c_install_idx r) (c_gate_idx r)))
+                                                     (if rollout then Some i else c_install_idx r) (c_gate_idx r)
+                                                     (c_issue r) (c_overlapped r)))
     | _ => m1
     end
   | KInstall s ok =>
@@ -122,7 +133,7 @@ Definition mon_step (m : mon) (i : nat) (e : event) : mon :=
       | ACmd c => let r := cmd_get m c in
                   set_cmds m1 (nset (m_cmds m1) c (mkC (c_kind r) (c_name r) (c_replaced r)
                                                        (match c_install_idx r with Some x => Some x | None => Some i end)
-                                                       (c_gate_idx r)))
+                                                       (c_gate_idx r) (c_issue r) (c_overlapped r)))
       | _ => m1
       end
     else m
@@ -132,7 +143,8 @@ Definition mon_step (m : mon) (i : nat) (e : event) : mon :=
     | ACmd c =>
       let r := cmd_get m c in
       let m0 := set_gate m ((c_name r, st) :: filter (fun p => negb (str_eqb (fst p) (c_name r))) (m_gate m)) in
-      let m1 := set_cmds m0 (nset (m_cmds m0) c (mkC (c_kind r) (c_name r) (c_replaced r) (c_install_idx r) (Some i))) in
+      let m1 := set_cmds m0 (nset (m_cmds m0) c (mkC (c_kind r) (c_name r) (c_replaced r) (c_install_idx r) (Some i)
+                                                     (c_issue r) (c_overlapped r))) in
       match st with
       | GRunning =>        (* resume: the service's targets may serve again *)
         set_quiet m1 (filter (fun p => match q_until_resume (snd p) with
@@ -240,7 +252,7 @@ Definition mon_step (m : mon) (i : nat) (e : event) : mon :=
                      (* ... and that slipped in AFTER this target's drain had begun (a request in flight before the
                         drain must have been waited for or cut off; a target that was never drained is no excuse) *)
                      let slipped := match nget (m_claim_idx m) r, nget (m_begin_idx m) (fst tr) with
-                                    | Some ci, Some bi => Nat.ltb bi ci | _, _ => false end in
+                                    | Some ci, Some bi => Nat.ltb bi ci && Nat.leb (c_issue rc) bi | _, _ => false end in
                      (i, 1, r, slipped && match stamp with Some x => Nat.ltb x stale_before | None => false end)) bad in
       let until := match c_kind rc with CkPause | CkStop => Some (c_name rc) | _ => None end in
       (* a pause/stop overtaken by a resume (overlapping commands) leaves nothing quiet *)
@@ -250,7 +262,7 @@ Definition mon_step (m : mon) (i : nat) (e : event) : mon :=
                else fold_left (fun acc t => nset acc t (mkQ i stale_before until)) mine (m_quiet m) in
       (* a pause/stop that a resume has overtaken (overlapping commands: outside the property's quantifier)
          is not judged *)
-      if resumed then m else set_fail (set_quiet m q) (rev fails ++ m_fail m)
+      if resumed || c_overlapped rc then m else set_fail (set_quiet m q) (rev fails ++ m_fail m)
     | _ => m
     end
   | _ => m
@@ -262,5 +274,66 @@ Fixpoint mon_run (m : mon) (i : nat) (tr : trace) : mon :=
   | e :: r => mon_run (mon_step m i e) (S i) r
   end.
 
-Definition c03_check (tr : trace) : list (nat * N * nat * bool) := rev (m_fail (mon_run mon0 0 tr)).
+(** second pass: a request a drain cut off (upgraded: at the snapshot; the others: at cancel-rest after the deadline) is
+    no longer served afterwards — its KEnd is not later than the cut (code 5).  The cut is an instantaneous
+    cancellation: no virtual time passes between it and the end of the exchange. *)
+Record cutst := mkCut {
+  k_snap : list (nat * list nat);        (* goroutine -> snapshot *)
+  k_hit : list nat;                      (* goroutines whose drain reported the deadline *)
+  k_cuts : list (nat * (nat * N));       (* request -> (event index, time) of its first cut *)
+  k_ends : list (nat * N)                (* request -> time of its latest KEnd *)
+}.
+
+Definition add_cuts (i : nat) (t : N) (rs : list nat) (cuts : list (nat * (nat * N))) :=
+  fold_left (fun acc r => match nget acc r with Some _ => acc | None => nset acc r (i, t) end) rs cuts.
+
+Definition cut_step (k : cutst) (i : nat) (e : event) : cutst :=
+  match e_k e with
+  | KDrainBegin _ orig _ =>
+    match orig with
+    | TDraining => k
+    | _ => mkCut (nset (k_snap k) (gid (e_by e)) []) (nremove (gid (e_by e)) (k_hit k)) (k_cuts k) (k_ends k)
+    end
+  | KDrainSnapshot _ rs =>
+    mkCut (nset (k_snap k) (gid (e_by e)) (map fst rs)) (k_hit k)
+          (add_cuts i (e_t e) (map fst (filter (fun rh => snd rh) rs)) (k_cuts k)) (k_ends k)
+  | KDrainDeadline _ => mkCut (k_snap k) (gid (e_by e) :: k_hit k) (k_cuts k) (k_ends k)
+  | KDrainCancelRest _ =>
+    let g := gid (e_by e) in
+    if nmem g (k_hit k) then
+      mkCut (k_snap k) (k_hit k)
+            (add_cuts i (e_t e) (match nget (k_snap k) g with Some l => l | None => [] end) (k_cuts k)) (k_ends k)
+    else k
+  | KEnd _ r => mkCut (k_snap k) (k_hit k) (k_cuts k) (nset (k_ends k) r (e_t e))
+  | KReleased =>
+    (* a request the harness held at a yield point when it was cut notices the cut when it is released *)
+    match e_by e with
+    | AReq r => match nget (k_cuts k) r with
+                | Some (i0, t0) => mkCut (k_snap k) (k_hit k) (nset (k_cuts k) r (i0, N.max t0 (e_t e))) (k_ends k)
+                | None => k
+                end
+    | _ => k
+    end
+  | _ => k
+  end.
+
+Fixpoint cut_run (k : cutst) (i : nat) (tr : trace) : cutst :=
+  match tr with
+  | [] => k
+  | e :: r => cut_run (cut_step k i e) (S i) r
+  end.
+
+Definition claimed_reqs (tr : trace) : list nat :=
+  flat_map (fun e => match e_k e with KClaim _ r => [r] | _ => [] end) tr.
+
+Definition cut_check (tr : trace) : list (nat * N * nat * bool) :=
+  let k := cut_run (mkCut [] [] [] []) 0 tr in
+  flat_map (fun c => let r := fst c in
+                     let '(i, t) := snd c in
+                     match nget (k_ends k) r with
+                     | Some t' => if t' <=? t then [] else [(i, 5, r, false)]
+                     | None => if nmem r (claimed_reqs tr) then [(i, 5, r, false)] else []
+                     end) (k_cuts k).
+
+Definition c03_check (tr : trace) : list (nat * N * nat * bool) := rev (m_fail (mon_run mon0 0 tr)) ++ cut_check tr.
 Definition c03_ok (tr : trace) : bool := match c03_check tr with [] => true | _ => false end.
